@@ -56,14 +56,32 @@ EXTRA = [   # nested / context-key-bound combinations that the Library kinds do 
      "float", "float", {"t_values"}),
     ({"processor": "VUndocSource", "derive": {"parameter_sweep": {"parameters": {"a": "t"}, "variables": {"t": {"values": [1.0]}}, "collection": "FloatDataCollection"}}},
      "none", "coll", {"t_values"}),
+    # data types nested in another class (qualified name 'VLab.Reading'): plain, sliced and swept components
+    ({"processor": "VNestedSource"}, "none", "reading", set()),
+    ({"processor": "VNestedSink"}, "reading", "reading", set()),
+    ({"processor": "VNestedProbe", "context_key": "np"}, "reading", "reading", {"np"}),
+    ({"processor": "VNestedOperation"}, "reading", "reading", set()),
+    ({"processor": "VNestedProbe", "context_key": "np", "derive": {"parameter_sweep": {"parameters": {"factor": "t"}, "variables": {"t": {"values": [1.0, 2.0]}}}}},
+     "reading", "reading", {"np", "t_values"}),
+    # model fitting: bound output key, default output key, the variable mapping with the key omitted / null / a nested path
+    ({"processor": "ModelFittingContextProcessor", "parameters": {"fitting_model": "model:VSumModel", "context_key": "fitc"}}, "any", "any", {"fitc"}),
+    ({"processor": "ModelFittingContextProcessor", "parameters": {"fitting_model": "model:VSumModel"}}, "any", "any", {"fit.parameters"}),
+    ({"processor": "ModelFittingContextProcessor", "parameters": {"fitting_model": "model:PolynomialFittingModel:degree=2", "independent_var_key": "t_values",
+                                                                   "dependent_var_key": "a", "context_key": None}}, "any", "any", {"fit.parameters"}),
+    ({"processor": "ModelFittingContextProcessor", "parameters": {"fitting_model": "model:VSumModel", "independent_var_key": "t_values",
+                                                                   "dependent_var_key": "stats.mean"}}, "any", "any", {"fit.parameters"}),
+    ({"processor": "ModelFittingContextProcessor", "parameters": {"fitting_model": "model:VSumModel", "independent_var_key": "xs",
+                                                                   "dependent_var_key": "stats.mean", "context_key": "fit.out"}}, "any", "any", {"fit.out"}),
 ]
 
 
 def real_type(name: str):
+    import verif_ext
     from semantiva.data_types import NoDataType
     from semantiva.examples.test_utils import FloatDataCollection, FloatDataType
 
-    return {"none": NoDataType, "float": FloatDataType, "coll": FloatDataCollection}.get(name)
+    return {"none": NoDataType, "float": FloatDataType, "coll": FloatDataCollection,
+            "reading": verif_ext.VLab.Reading, "readings": verif_ext.VLab.Readings}.get(name)
 
 
 def examine(node_cfg: Dict[str, Any], exp_in: str, exp_out: str, exp_created, exp_suppressed=None, keep=None) -> List[tuple]:
@@ -117,6 +135,17 @@ def chunk(jobs: List[Dict[str, Any]]):
             bad = [("factory-raises", f"node factory raised {type(exc).__name__}: {exc} for {j['cfg']}")]
         for k, m in bad:
             out["viol"].append((k + ":" + j["name"], m, {"cfg": j["cfg"]}))
+    # FAULT HISTORY: configurations of the same processors that the factory REJECTS (a misspelt parameter, a probe without
+    # its context key) are submitted next -- what `semantiva inspect` does with a user's typo; the classes built above stay in use
+    from semantiva.pipeline.nodes._pipeline_node_factory import _pipeline_node_factory
+    for node, cfg in kept[:: max(1, len(kept) // 25)]:
+        bad_cfg = dict(cfg)
+        bad_cfg["parameters"] = dict(cfg.get("parameters") or {}, no_such_parameter_xyz=1)
+        bad_cfg.pop("context_key", None)
+        try:
+            _pipeline_node_factory(bad_cfg)
+        except Exception:
+            pass
     # every class generated above is still in use: it must satisfy the catalogue NOW as well, after all the
     # later (often same-named) classes were generated and registered
     from semantiva.contracts.expectations import validate_component
